@@ -28,7 +28,6 @@ Proof.
 Qed.
 
 (** ** POP3 (open known finding K-C04-pop3-user): USER takes its argument verbatim *)
-Definition no_ip (_ : str) : bool := false.
 (* "User+tag@Example.COM" *)
 Definition pop3_witness : str := [85;115;101;114;43;116;97;103;64;69;120;97;109;112;108;101;46;67;79;77].
 
